@@ -140,7 +140,10 @@ func (k c12case) text(proj string) string {
 	// glob *dependencies* are inputs, never outputs: what they match must survive --clean
 	fmt.Fprintf(&b, "task build(\"a.txt\", \"src/**/*.c\", \"keep/*\")%s {\n    true\n}\n\n", outs(o1))
 	fmt.Fprintf(&b, "task other(\"*.md\", \"lib/*\")%s {\n    true\n}\n\n", outs(o2))
-	if k.CleanTask {
+	if k.CleanTask && len(k.Files)%3 == 0 {
+		// a clean task that only gathers other tasks: still "a task named clean"
+		b.WriteString("task marker() {\n    printf cleaned > cleaned.marker\n}\n\ntask clean(marker) {}\n")
+	} else if k.CleanTask {
 		b.WriteString("task clean() {\n    printf cleaned > cleaned.marker\n}\n")
 	}
 	return b.String()
